@@ -129,8 +129,10 @@ def first_cause_oracle(ix: Index) -> list[Violation]:
         k1, _j, sig1, det1, fd1 = causes[0]
         if sig1 == "peer_disconnect":
             continue
-        # a local close before the first fault reaches the library: waiters get the plain closed error
-        if any(k < k1 for k in ix.disc_keys.get(c, [])):
+        # a local close that has TAKEN EFFECT before the first fault reaches the library: waiters get the plain closed
+        # error (a graceful disconnect() that is still waiting for the device's answer has not closed anything yet: a
+        # socket failure in that window is still the first fatal cause for everybody else who waits)
+        if any(k < k1 and (force or st_ != "CONNECTED") for k, (sq_, force, st_) in zip(ix.disc_keys.get(c, []), ix.disc_calls.get(c, []))):
             continue
         T = ix.closed_seq.get(c)
         if T is not None and (ix.seq_turn[T], T) < k1:
@@ -327,6 +329,13 @@ class C09(CheckBase):
                 b = with_cause(base, c2, {"turn": n}, pick(rng, ["pre", "post"]), rng)
                 b = with_cause(b, c1, {"turn": n + k}, pick(rng, ["pre", "post"]), rng)
                 yield b
+            # always: a local graceful disconnect that is still waiting for the device's answer when the socket fails
+            # (the waiters must still see the socket's error, not a bare 'closed')
+            for c2 in ("fin", "rst", "eio", "tx_error", "garbage"):
+                n = rng.randint(max(1, T // 2), T)
+                a = with_cause(base, "disconnect", {"turn": n}, pick(rng, ["pre", "post"]), rng)
+                a["device"].setdefault("replies", {})["DisconnectRequest"] = ["silent"]
+                yield with_cause(a, c2, {"turn": n + pick(rng, [1, 2, 3, 5])}, "pre", rng)
         else:
             for k in range(30 if tier == "quick" else 60):
                 yield gen_burst_case(rng) if k % 6 == 5 else (gen_raiser_case(rng) if k % 6 == 4 else gen_connect_fault_case(rng))
